@@ -24,10 +24,20 @@ structure SV where
   /-- the names of all types, sorted bytewise -/
   typeNames : List Name
 
+/-- insertion into a sorted list, before the first element that is not smaller -/
+def insertSorted {α : Type} (le : α → α → Bool) (x : α) : List α → List α
+  | [] => [x]
+  | y :: ys => if le x y then x :: y :: ys else y :: insertSorted le x ys
+
+/-- stable insertion sort (structurally recursive, so that closed instances reduce in the kernel;
+    Go's `sort.Slice` IS an insertion sort below 12 elements, `sort.SliceStable`/`sort.Strings`
+    agree with any stable sort / any sort by a total order) -/
+def stableSort {α : Type} (le : α → α → Bool) (l : List α) : List α := l.foldr (insertSorted le) []
+
 /-- byte-wise `a ≤ b` -/
 def bytesLe (a b : Bytes) : Bool := !decide (b < a)
 
-def sortNames (ns : List Name) : List Name := ns.mergeSort bytesLe
+def sortNames (ns : List Name) : List Name := stableSort bytesLe ns
 
 end Gql.Validate
 
